@@ -56,7 +56,7 @@ IDIOMS = {
     'I15': 'M.entry(K).or_insert(V)  =>  idiom_entry_or_insert(&mut M, K, V)   (HashMap entry API: &mut to the value at K, V inserted first if absent)',
     'I17': 'for (K, V) in &M {  |  for (K, V) in M.iter() {  |  for V in M.values() {   =>  let es__ = idiom_map_entries(&M); for i__ in 0..es__.len() { let (K, V) = (&es__[i__].0, es__[i__].1);   (HashMap iteration = enumeration of the entries, each once, in an UNSPECIFIED order)',
     'I18': '*M.keys().max().unwrap()  =>  idiom_max_key(&M)   (panics on an empty map: precondition)',
-    'I19': 'M.retain(|K, _| { *K >= A && *K <= B });  =>  idiom_retain_key_range(&mut M, A, B);',
+    'I19': 'M.retain(|K, _| { *K >= A && *K <= B });  or  M.retain(|K, _| (A..=B).contains(K));  =>  idiom_retain_key_range(&mut M, A, B);',
     'I16': 'if C { continue; } REST }  =>  if !(C) { REST } }   (only where nothing but closing braces lies between the end of the enclosing block and the end of the loop body: `continue` == skip REST)',
     'I21': 'println!(ARGS)  =>  verif_println!(stdout__, ARGS)   (the process-global stdout made an explicit ghost line log)',
     'I25': 'X.chunks(2).filter(|c| c.len() == 2).map(|c| sha256d::Hash::hash(&[c[0], c[1]].concat())).collect::<Vec<sha256d::Hash>>()  =>  idiom_hash_pairs(&X)   (hash of every complete adjacent pair, in order)',
@@ -769,10 +769,16 @@ def apply_idiom(ed, text, base, body_rel, loops, rest, item_id, log, rel, src, r
                 raise GenError('I18 shape mismatch: %s' % flat)
             new = 'idiom_max_key(&%s)' % h.group(1)
         elif rule == 'I19':
-            h = re.match(r'^([\w\.]+)\.retain\(\|(\w+), _\| \{ \*(\w+) >= (.+?) && \*(\w+) <= (.+?) \}\);$', flat)
-            if not h or h.group(2) != h.group(3) or h.group(2) != h.group(5):
+            h = (re.match(r'^([\w\.]+)\.retain\(\|(\w+), _\| \{ \*(\w+) >= (.+?) && \*(\w+) <= (.+?) \}\);$', flat)
+                 or re.match(r'^([\w\.]+)\.retain\(\|(\w+), _\| \*(\w+) >= (.+?) && \*(\w+) <= (.+?)\);$', flat))
+            # the same key filter written with an inclusive range: `|K, _| (A..=B).contains(K)` keeps exactly A <= K <= B
+            h2 = (re.match(r'^([\w\.]+)\.retain\(\|(\w+), _\| \{? ?\((.+?)\.\.=(.+?)\)\.contains\((\w+)\) ?\}?\);$', flat) if not h else None)
+            if h and h.group(2) == h.group(3) and h.group(2) == h.group(5):
+                new = 'idiom_retain_key_range(&mut %s, %s, %s);' % (h.group(1), h.group(4), h.group(6))
+            elif h2 and h2.group(2) == h2.group(5):
+                new = 'idiom_retain_key_range(&mut %s, %s, %s);' % (h2.group(1), h2.group(3), h2.group(4))
+            else:
                 raise GenError('I19 shape mismatch: %s' % flat)
-            new = 'idiom_retain_key_range(&mut %s, %s, %s);' % (h.group(1), h.group(4), h.group(6))
         elif rule == 'I11':
             h = re.match(r'^([\w\.]+)\.to_le_bytes\(\)$', flat)
             if not h:
